@@ -50,6 +50,8 @@ type HostSpec struct {
 	// usual challenge: "" = the usual challenge; "nohdr" = no Www-Authenticate at all; "negotiate" = an
 	// unsupported scheme; "malformed" = an unparsable header.
 	Retry401 string `json:"retry401,omitempty"`
+	// Body401DelayMs: the body of the registry's 401 responses takes this long (virtual time) to arrive
+	Body401DelayMs int `json:"body401_delay_ms,omitempty"`
 }
 
 // Triple is one (type, resource, action).
@@ -361,7 +363,25 @@ func (w *World) registry(h *HostSpec, req *http.Request, a *Arrival) *http.Respo
 		hdr.Set("Content-Type", h.ErrContentType)
 	}
 	a.Status = 401
-	return resp(req, 401, hdr, `{"errors":[{"code":"UNAUTHORIZED","message":"authentication required"}]}`)
+	r := resp(req, 401, hdr, `{"errors":[{"code":"UNAUTHORIZED","message":"authentication required"}]}`)
+	if h.Body401DelayMs > 0 {
+		r.Body = &slowBody{ReadCloser: r.Body, d: time.Duration(h.Body401DelayMs) * time.Millisecond}
+	}
+	return r
+}
+
+// slowBody delivers its content after a delay.
+type slowBody struct {
+	io.ReadCloser
+	d time.Duration
+}
+
+func (b *slowBody) Read(p []byte) (int, error) {
+	if b.d > 0 {
+		time.Sleep(b.d)
+		b.d = 0
+	}
+	return b.ReadCloser.Read(p)
 }
 
 func (w *World) tokenServer(hs []*HostSpec, req *http.Request, a *Arrival, body string) *http.Response {
